@@ -170,7 +170,11 @@ impl Wait for YieldingWait {
         }
         loop {
             yield_now();
-            for _ in 0..self.spins_yield {
+            // always look at least once per yield: with spins_yield == 0 the loop below is empty
+            if check(seq, w_pos, wc) {
+                return;
+            }
+            for _ in 1..self.spins_yield {
                 if check(seq, w_pos, wc) {
                     return;
                 }
